@@ -574,7 +574,26 @@ fn shift_amounts(ctx: &mut Ctx, t: u128, len: usize) -> u128 {
     (if ctx.rng.chance(3, 4) { ctx.rng.pick(&cands) } else { ctx.rng.below(len as u64 + 3) as u128 }) & max
 }
 
+/// shift amounts of type u128 (and u64) whose value is >= the length but whose low 64 / 32 bits are small:
+/// every form, both directions, every kind (a conversion of the amount that truncates is certain to show)
+fn wide_shift_amounts(ctx: &mut Ctx) {
+    for ka in 0..NKINDS {
+        let len = match kind_cap_or(ka, 0) { 0 => ctx.rng.pick(&[70usize, 130, 200]), c => c };
+        let limbs = vec![u64::MAX; (len + 63) / 64];
+        let a = make_val(ka, len, &limbs, ctx.rng.below(2) as usize, ctx.rng.chance(1, 2));
+        for (t, k) in [(128u128, 1u128 << 64), (128, (1 << 64) + 1), (128, (1 << 64) + 3), (128, (1 << 65) + 2), (128, (1 << 100) + 1), (128, (1 << 127) + 5),
+                       (64, 1 << 32), (64, (1 << 32) + 1), (64, (1 << 33) + 3), (64, (1 << 63) + 2), (65, (1 << 32) + 1), (65, (1 << 40) + 2)] {
+            for sop in [61u32, 62] {
+                for form in 0..6 {
+                    ctx.emit(Case::new(sop).form(form).arg(tb(t)).arg(k).arg(us(t)).val(a.clone()));
+                }
+            }
+        }
+    }
+}
+
 fn gen_c05(ctx: &mut Ctx) {
+    wide_shift_amounts(ctx);
     ctx.allow_huge.set(true);
     let n = ctx.scale(25, 250);
     for ka in 0..NKINDS {
@@ -1087,6 +1106,40 @@ fn zero_word_cases(ctx: &mut Ctx) {
     ctx.emit(Case::new(4).kind(KZ).list(vec![]));
     ctx.emit(Case::new(4).kind(KZ).list(vec![48]));
     ctx.emit(Case::new(6).kind(KZ).arg(0).list(vec![]));
+    // the whole interface on the only value of the type: observers, edits, arithmetic, constructors, conversions
+    observer_battery(ctx, &z, 1);
+    for _ in 0..60 {
+        let c = edit_case(ctx, &z);
+        ctx.emit(c);
+        let c = arith_step(ctx, &z);
+        ctx.emit(c);
+        let c = iter_case(ctx, &z);
+        ctx.emit(c);
+    }
+    for len in [0u128, 1, 8] {
+        ctx.emit(Case::new(3).kind(KZ).arg(len));
+        ctx.emit(Case::new(13).kind(KZ).arg(1).arg(len));
+        ctx.emit(Case::new(7).kind(KZ).arg(len).arg(0).list(vec![0xff, 0xff]));
+        ctx.emit(Case::new(10).kind(KZ).arg(len).list((0..len).map(|_| 1).collect()));
+        ctx.emit(Case::new(5).kind(KZ).list((0..len / 4).map(|_| 0x66).collect()));
+        ctx.emit(Case::new(9).kind(KZ).arg(8).arg(8).list((0..len / 8).map(|_| 0).collect()));
+    }
+    for k in 0..NKINDS {
+        for len in [0usize, 1] {
+            let a = make_val(k, len, &[1], 0, false);
+            ctx.emit(Case::new(11).kind(KZ).val(a.clone()));
+            ctx.emit(Case::new(11).kind(KZ).form(1).val(a.clone()));
+            ctx.emit(Case::new(34).val(z.clone()).val(a.clone()));
+            ctx.emit(Case::new(34).val(a.clone()).val(z.clone()));
+            ctx.emit(Case::new(47).val(a.clone()).val(z.clone()));
+            ctx.emit(Case::new(48).arg(0).val(a.clone()).val(z.clone()));
+            ctx.emit(Case::new(48).arg(0).val(z.clone()).val(a.clone()));
+            ctx.emit(Case::new(71).val(z.clone()).val(a.clone()));
+            ctx.emit(Case::new(71).val(a).val(z.clone()));
+        }
+        ctx.emit(Case::new(11).kind(k).form(1).val(z.clone()));
+    }
+    ctx.emit(Case::new(37).val(z.clone()).val(z.clone()));
     for k in [0u8, 8, KD, KA] {
         let a = rand_val(ctx, k);
         ctx.emit(Case::new(66).form(3).val(a.clone()).val(z.clone()));
@@ -1196,7 +1249,8 @@ fn gen_c13(ctx: &mut Ctx) {
     for k in 0..NKINDS {
         for _ in 0..n {
             let a = rand_val(ctx, k);
-            ctx.emit(Case::new(22 + ctx.rng.below(2) as u32).arg(ctx.rng.below(2) as u128).val(a));
+            ctx.emit(Case::new(22).arg(ctx.rng.below(2) as u128).val(a.clone()));
+            ctx.emit(Case::new(23).arg(ctx.rng.below(2) as u128).arg(ctx.rng.below(3) as u128).val(a));
             // from_bytes: around capacity
             let capb = kind_cap_or(k, 320) / 8;
             let nb = if ctx.rng.chance(1, 5) { capb + 1 + ctx.rng.below(2) as usize } else { ctx.rng.below(capb as u64 + 1) as usize };
@@ -1333,7 +1387,7 @@ fn gen_c14(ctx: &mut Ctx) {
 
 fn gen_c15(ctx: &mut Ctx) {
     let n = ctx.scale(150, 1500);
-    let bad: [u128; 12] = [0x32, 0x20, 0x2f, 0x3a, 0x67, 0x47, 0x60, 0x40, 0xe9, 0x20ac, 0x1f600, 0x660];
+    let bad: [u128; 18] = [0x32, 0x20, 0x2f, 0x3a, 0x67, 0x47, 0x60, 0x40, 0xe9, 0x20ac, 0x1f600, 0x660, 0x2b, 0x2d, 0x5f, 0x2e, 0x78, 0x0];
     for k in 0..NKINDS {
         for _ in 0..n {
             let hex = ctx.rng.chance(1, 2);
@@ -1366,6 +1420,25 @@ fn gen_c15(ctx: &mut Ctx) {
                 }
             }
             ctx.emit(Case::new(if hex { 5 } else { 4 }).kind(k).list(s));
+        }
+    }
+    // one offending character (sign, separator, prefix letter) at every position of strings long enough to be
+    // processed in groups (8, 16, 32 or 64 characters at a time)
+    for k in [KD, KA, 11, 16, 17] {
+        for hex in [false, true] {
+            let unit = if hex { 4 } else { 1 };
+            let lens: &[usize] = if hex { &[16, 17, 32, 33, 48] } else { &[64, 65, 128, 130] };
+            for &nch in lens {
+                if nch * unit > kind_cap_or(k, 100000) {
+                    continue;
+                }
+                let step = if ctx.thorough || hex { 1 } else { 3 };
+                for i in (0..nch).step_by(step).chain([nch - 1, nch - 16.min(nch), nch - 8.min(nch)]) {
+                    let mut s: Vec<u128> = (0..nch).map(|_| if hex { 48 + ctx.rng.below(10) as u128 } else { 48 + ctx.rng.below(2) as u128 }).collect();
+                    s[i] = ctx.rng.pick(&[0x2bu128, 0x2d, 0x2b, 0x5f, 0x20]);
+                    ctx.emit(Case::new(if hex { 5 } else { 4 }).kind(k).list(s));
+                }
+            }
         }
     }
     // code points whose low byte (or low 16 bits) is a valid digit: truncating casts must not accept them
@@ -1427,6 +1500,9 @@ fn gen_c16(ctx: &mut Ctx) {
 }
 
 fn gen_c17(ctx: &mut Ctx) {
+    // iterators over a vector of 2^32 + 8 bits against a range iterator (harness-only oracle, op 99)
+    ctx.emit(Case::new(99).arg(1).arg(14));
+    ctx.emit(Case::new(99).arg(1).arg(15));
     let n = ctx.scale(500, 5000);
     for k in 0..NKINDS {
         for _ in 0..n {
@@ -1525,6 +1601,7 @@ fn gen_c19(ctx: &mut Ctx) {
 }
 
 fn gen_c20(ctx: &mut Ctx) {
+    wide_shift_amounts(ctx);
     let na = ctx.scale(6, 60);
     alias_cases(ctx, &[63, 64, 65, 66, 67, 68, 69, 70], na);
     // every operator x every form for every pairing of storage classes (fixed narrow / fixed wide /
